@@ -59,3 +59,16 @@ void h_push(void) {
   VASSERT(pushes == 1 && pushed_to == &MQ.hdr.fifos[p], "C15.mpscr: push goes to the producer's own sub-queue, once");
   VCANARY("mpscr push can return");
 }
+/* create: every producer's sub-queue is initialised (in whatever memory malloc returned) before the queue is handed out - also when asserts are
+ * compiled out (the proofs run with -DNDEBUG, like a Release build: an initialisation placed inside assert() disappears) */
+void h_create(void) {
+  mpscr_fifo_t* q = mpscr_fifo_create(NPROD);
+  if (q) {
+    VASSERT(q->counter == 0 && q->num_producers == NPROD, "C15.mpscr: create: counter 0, the requested number of producers");
+    for (int i = 0; i < NPROD; i++) {
+      VASSERT(q->fifos[i].head != 0 && q->fifos[i].head == q->fifos[i].tail && q->fifos[i].head->next == 0, "C15.mpscr: create: every producer's sub-queue is initialised and empty");
+      for (int j = 0; j < i; j++) VASSERT(q->fifos[i].head != q->fifos[j].head, "C15.mpscr: create: sub-queues do not share their dummy node");
+    }
+  }
+  VCANARY("mpscr create can return");
+}
